@@ -22,6 +22,7 @@ from .core import (
     Ctx,
     Failure,
     HarnessError,
+    WrongReturn,
     case_hash,
     compact,
     dumps,
@@ -109,6 +110,8 @@ def safe_run_case(mod, case, ctx, repo):
         return list(out or [])
     except HarnessError:
         raise
+    except WrongReturn as e:
+        return [Failure("returns_documented_object", e.what, "type=" + e.type_name, str(e))]
     except Exception as e:  # noqa
         site = innermost_lib_frame(e.__traceback__, repo)
         tb = "".join(traceback.format_exception(type(e), e, e.__traceback__))
